@@ -2669,9 +2669,12 @@ class BaseInterpreter(Generic[TContext, TEvent]):
         parent = transition.source.parent or self.machine
 
         # For any self-transition, the domain is the parent. This forces an
-        # exit/re-entry cycle for the source state.
+        # exit/re-entry cycle for the source state. The root has no parent:
+        # `None` makes the whole machine the domain, so the root itself is
+        # exited and re-entered (using the root as its own domain exited
+        # every descendant and entered nothing, leaving no active leaf).
         if target_state == transition.source:
-            return parent
+            return transition.source.parent
 
         # Standard case: Compute the Least Common Compound Ancestor (LCCA).
         source_ancestors = self._get_ancestors(transition.source)
@@ -2693,7 +2696,7 @@ class BaseInterpreter(Generic[TContext, TEvent]):
         # restored, permanently killing them. The parent is the correct domain:
         # it exits and re-enters exactly the target subtree.
         if target_state in source_ancestors:
-            return target_state.parent or self.machine
+            return target_state.parent
 
         if not common_ancestors:
             # Fallback to parent (or machine root) if no commonality is found.
